@@ -523,6 +523,7 @@ class Translator:
         self.funcs[cname] = None   # recursion guard
         self.cur_fn = cname
         self.loop_ord = 0
+        self.tmp = 0            # temporaries are numbered per function (loop contracts name them)
         self.contract = contract or {}
         self.locals = [{}]
         self.defers = [[]]
@@ -619,10 +620,22 @@ class Translator:
         for r in c.get('requires', []):
             out += '__CPROVER_requires(%s)\n' % (r[1] if isinstance(r, tuple) else r)
         if 'assigns' in c:
-            out += '__CPROVER_assigns(%s)\n' % ', '.join(c['assigns'])
+            out += '__CPROVER_assigns(%s)\n' % self.assigns_text(c['assigns'])
         for e in c.get('ensures', []):
             out += '__CPROVER_ensures(%s)\n' % (e[1] if isinstance(e, tuple) else e)
         return out
+
+    @staticmethod
+    def assigns_text(items):
+        """plain targets, then conditional groups `cond: t1, t2` separated by semicolons (tuples (cond, target))"""
+        plain = [i for i in items if not isinstance(i, tuple)]
+        groups = {}
+        for i in items:
+            if isinstance(i, tuple):
+                groups.setdefault(i[0], []).append(i[1])
+        parts = [', '.join(plain)] if plain or not groups else []
+        parts += ['%s: %s' % (c, ', '.join(ts)) for c, ts in groups.items()]
+        return '; '.join(parts)
 
     def weave_loop(self):
         i = self.loop_ord
@@ -632,7 +645,7 @@ class Translator:
             return ''
         out = ''
         if 'assigns' in lc:
-            out += '  __CPROVER_assigns(%s)\n' % ', '.join(lc['assigns'])
+            out += '  __CPROVER_assigns(%s)\n' % self.assigns_text(lc['assigns'])
         for inv in lc.get('invariant', []):
             out += '  __CPROVER_loop_invariant(%s)\n' % inv
         if 'decreases' in lc:
@@ -925,7 +938,12 @@ class Translator:
         rexpr = rangedecl['inner'][0]
         rt = self.objtype(rangedecl)
         rtd = self.objtype_desugared(rangedecl)
-        b = self.lookup_binding(['range:' + rt, 'range:' + (rtd or '?')])
+        keys = ['range:' + rt, 'range:' + (rtd or '?')]
+        try:
+            keys.append('range:@' + self.ctype(self.qt(rangedecl), rangedecl['type'].get('desugaredQualType')).base)
+        except Unsupported:
+            pass
+        b = self.lookup_binding(keys)
         if b is None:
             raise Unsupported('range-for over %s' % rt)
         size_fn, at_fn = b
